@@ -283,13 +283,14 @@ Definition mon2 (b : base) (m0 : mst2) (te : Z * ev) : list alarm :=
       if zb fl then [] else
       when ((cause =? sHealthFail) && io_flag (inst_of b i) && negb (n_hrun x =? health_thr c)) 1201 ++
       when ((cause =? sGraceExpired) &&
+            (* a stop call in progress has ended the obligations: the expiry handler and the stop race for the same demotion *)
+            negb (io_stopping (inst_of b i)) &&
             match n_disc x with
             | Some (td, _, _) =>
                 (* a notification arriving at the very instant the timer fires is unordered with it *)
                 let td' := if td =? t then match n_disc_prev x with Some p => p | None => td end else td in
                 t <? td' + grace_of c
-            | None => negb (io_stopping (inst_of b i))   (* a stop call in progress has ended the obligations: the expiry handler
-                                                           and the stop race for the same demotion *)
+            | None => true
             end) 1101 ++
       when ((cause =? sVerifyFail) && negb (existsb (fun v => let '(st, _, _) := v in negb (st =? 5)) (n_vers x))
             && negb (Nat.eqb (List.length (n_vers x)) 0)) 1103
